@@ -36,8 +36,9 @@ DOCS = [
     '@preamble{"p"}\n@comment{c}\n@misc{m, note = {ü ñ é}}\n',
     "@a{凯, author = {凯撒}, j = {测试期刊}}\n",
     "free text\n@a{k1, f = {1}}\n@a{k1, f = {2}}\n@b{k2, g = {1}, g = {2}}\n@c{broken\n",
+    "\xff\xfe text that starts like a byte-order mark when stored as latin-1\n@a{k9, t = {\xfe\xff \xe9}}\n",
 ]
-ENCODINGS = {0: ["utf-8", "latin-1", "gbk", "utf-16", "ascii"], 1: ["utf-8", "latin-1", "gbk", "utf-16"], 2: ["utf-8", "latin-1", "utf-16"], 3: ["utf-8", "gbk", "utf-16"], 4: ["utf-8", "utf-16"]}
+ENCODINGS = {0: ["utf-8", "latin-1", "gbk", "utf-16", "ascii"], 1: ["utf-8", "latin-1", "gbk", "utf-16"], 2: ["utf-8", "latin-1", "utf-16"], 3: ["utf-8", "gbk", "utf-16"], 4: ["utf-8", "utf-16"], 5: ["latin-1", "utf-8", "utf-16", "utf-16-le"]}
 
 
 class Tag(BlockMiddleware):
@@ -204,7 +205,7 @@ def check_stack(pos, di, idxs, cname, acc, tmpdir):
             else:
                 exp = attempt(lambda: write(fold(fresh(idxs) + default_unparse(), base()), fmt()))
     acc.step(("doc", di, position), ("stack", idxs, cname), got if got[0] == "raised" else ("ok", hash(got[1])))
-    acc.outcome(got if got[0] == "raised" else hash(got[1]))
+    acc.outcome(got if got[0] == "raised" else hash(repr(got[1])))
     if got != exp:
         acc.violation(
             {"oracle": "entry_point_equals_folded_stack", "position": position, "container": cname if cname == "iterator" else "sequence", "kind": "raised" if "raised" in (got[0], exp[0]) else "result"},
@@ -271,11 +272,20 @@ def check_files(acc, tmpdir):
                         args = {k: fresh(v) for k, v in kw.items()}
                         args.update(fk)
                         if target == "path":
-                            if os.path.exists(path):
-                                os.unlink(path)
-                            r = bibtexparser.write_file(path, lib(), **args)
-                            with open(path) as f:
-                                return (r, f.read())
+                            # whatever the path held before - nothing, the same text with other line ends, something
+                            # longer - afterwards it holds exactly the text (read back as bytes)
+                            want = ref()[1]
+                            outs = []
+                            for before in (None, want.replace("\n", "\r\n"), want.replace("\n", "\r"), want + "% stale tail\n" * 3, ""):
+                                if os.path.exists(path):
+                                    os.unlink(path)
+                                if before is not None:
+                                    with open(path, "w", newline="") as f:
+                                        f.write(before)
+                                r = bibtexparser.write_file(path, lib(), **{k: fresh(v) for k, v in kw.items()}, **fk)
+                                with open(path, "rb") as f:
+                                    outs.append(f.read().decode())
+                            return (r, outs[0]) if all(o == outs[0] for o in outs) else (r, outs)
                         if target == "stringio":
                             s = io.StringIO()
                             r = bibtexparser.write_file(s, lib(), **args)
@@ -295,7 +305,7 @@ def check_files(acc, tmpdir):
                         return (None, bibtexparser.write_string(lib(), **args))
 
                     got, exp = attempt(run), attempt(ref)
-                    acc.step(("wfile", di, target), ("write_file", tuple(kw), with_fmt), got if got[0] == "raised" else hash(got[1]))
+                    acc.step(("wfile", di, target), ("write_file", tuple(kw), with_fmt), got if got[0] == "raised" else hash(repr(got[1])))
                     if got != exp:
                         acc.violation({"oracle": "write_file_writes_what_write_string_returns", "target": target}, {"case": case, "observed": repr(got)[:400], "expected": repr(exp)[:400]})
 
